@@ -308,7 +308,7 @@ def run(ctx):
         if cons == "cliSend" and dec.startswith("ok "):
             nw = json.loads(bytes.fromhex(dec[3:]))
             old = json.loads(bytes.fromhex(kv["wire"]))
-            if not (nw.get("exp", 0) <= old.get("exp", 0) and nw.get("sub") == old.get("sub")):
+            if not (nw.get("exp", 0) <= old.get("exp", 0) and (nw.get("sub") or "") == (old.get("sub") or "")):
                 c.add_violation(ctx, "cli-session-outlives-token", "session minted from a CLI token expires at %s, the token at %s" % (
                     nw.get("exp"), old.get("exp")), {"op": o, "impl": line})
             idec = "ok " + strip_times(flat_wire(dec[3:])[0])
